@@ -248,6 +248,18 @@ func validate(c Case) error {
 			if !known(ca.Key) || !vkit.AlgFitsKey(ca.Alg, vkit.Key(ca.Key)) || ca.Reps < 0 || ca.Reps > 8 {
 				return fmt.Errorf("bad caller %v", ca)
 			}
+			switch ca.Ctx {
+			case "", "far":
+			case "near":
+				if ph.Mode != "sched" {
+					return fmt.Errorf("near deadline in a storm phase")
+				}
+			default:
+				return fmt.Errorf("bad context plan %q", ca.Ctx)
+			}
+			if ca.DeadlineMs < 0 || ca.DeadlineMs > 200 {
+				return fmt.Errorf("bad deadline %d ms", ca.DeadlineMs)
+			}
 		}
 		if len(ph.Events) > 100 {
 			return fmt.Errorf("too many events")
@@ -255,7 +267,7 @@ func validate(c Case) error {
 		for _, e := range ph.Events {
 			switch e.Op {
 			case "release":
-			case "arrive", "cancel":
+			case "arrive", "cancel", "expire": // an expire of a caller that has no near deadline is ignored
 				if e.Caller < 0 || e.Caller >= len(ph.Callers) {
 					return fmt.Errorf("event caller out of range")
 				}
